@@ -110,11 +110,12 @@ theorem checkNumber_int (v : Int) (h1 : -(2 ^ 63 : Int) ≤ v) (h2 : v < 2 ^ 63)
     rw [hp', scanNumberLoop]
     simp only [scanNumberLoop]
     simp only [List.length_cons, List.length_append, List.length_nil]
-    have hcons : 45 :: (natDigits v.natAbs ++ [105]) = (45 :: natDigits v.natAbs) ++ [105] := rfl
     have hlast : (45 :: (natDigits v.natAbs ++ [105])).getLast? = some 105 := by
-      rw [hcons]; simp
+      show ((45 :: natDigits v.natAbs) ++ [105]).getLast? = some 105
+      exact getLast?_append_single _ _
     have hdl : (45 :: (natDigits v.natAbs ++ [105])).dropLast = 45 :: natDigits v.natAbs := by
-      rw [hcons]; simp
+      show ((45 :: natDigits v.natAbs) ++ [105]).dropLast = _
+      exact List.dropLast_concat
     have hlen : 0 < (natDigits v.natAbs).length := by rw [hd]; simp
     simp [hlast, hdl, ← htok, hparse]
     omega
@@ -128,8 +129,7 @@ theorem checkNumber_int (v : Int) (h1 : -(2 ^ 63 : Int) ≤ v) (h2 : v < 2 ^ 63)
     simp only [scanNumberLoop]
     have hlen : 0 < (natDigits v.natAbs).length := by rw [hd]; simp
     simp [← htok, hparse]
-    trace_state
-    omega
+    rw [htok]; exact hne
 
 theorem checkNumber_uint (v : Nat) (h : v < 2 ^ 64) : checkNumber (natDigits v ++ [117]) = .ok () := by
   obtain ⟨d, r, hd, hdig⟩ := natDigits_head v
@@ -144,6 +144,5 @@ theorem checkNumber_uint (v : Nat) (h : v < 2 ^ 64) : checkNumber (natDigits v +
   simp only [scanNumberLoop]
   have hlen : 0 < (natDigits v).length := by rw [hd]; simp
   simp [hparse]
-  omega
 
 end Influx.LP
